@@ -699,6 +699,9 @@ def c16(run, op, ctx, after):
         if g is None or g.status != 200 or not (g.body == ctx["body"] or icalparse.semantically_equal(ctx["body"], g.body)):
             run.v("C16", "C16.location-does-not-resolve", "POST %s -> Location %r; GET of it -> %s" % (op["coll"], ctx["location"], g.status if g else None), site="post-location")
         run.nontrivial["deref"] = run.nontrivial.get("deref", 0) + 1
+    if kind in ("get", "head") and ctx.get("read_fault") and r is not None and r.status == 404 and run.find_live(op["path"]):
+        # under a read error a request may fail; it may not deny a resource that exists
+        run.v("C16", "C16.existing-resource-denied-under-read-error", "%s %s -> 404 while the member exists (read error injected)" % (kind.upper(), op["path"]), site="get")
     if kind == "proppatch" and ctx.get("ms_href") is not None and ctx.get("status") == 207:
         deref_collection(run, ctx["ms_href"], w.target(ctx["rel"]), ctx["rel"], after, "proppatch-response")
     # dereference every href of the listings, as sent
@@ -772,6 +775,14 @@ def check_depth(run, op, ctx, after):
                 deref_collection(run, h, base, want, after, "property-" + tag.split("}")[1])
     path = op["path"]
     cpath = path if path.endswith("/") else path + "/"
+    if cpath in run.model.colls and op.get("kind", "prop") != "propname":
+        # the addressed collection is described as what it is (also under an injected read error)
+        o2 = after.get(cpath)
+        for ms, rel in zip(rs, rels):
+            if rel is not None and rel.rstrip("/") == cpath.rstrip("/") and o2 is not None and o2.exists:
+                rt = ms.prop(dav.P_RESOURCETYPE)
+                if rt is not None and frozenset(e.tag for e in rt) != o2.rtypes:
+                    run.v("C16", "C16.collection-described-as-something-else", "PROPFIND %s: resourcetype %s, the audit sees %s" % (path, sorted(e.tag for e in rt), sorted(o2.rtypes)), site="propfind-self")
     if cpath in run.model.colls:
         o = after.get(cpath)
         want = {cpath}
